@@ -290,7 +290,7 @@ func (app *App) addPrefixToRoute(prefix string, route *Route) *Route {
 	route.Params = parseRoute(prefixedPath, app.customConstraints...).params
 	route.root = false
 	// as in register: the wildcard shortcut applies exactly when the whole path is "/*"
-	route.star = route.path == "/*"
+	route.star = prettyPath == "/*"
 
 	return route
 }
@@ -359,7 +359,8 @@ func (app *App) register(methods []string, pathRaw string, group *Group, handler
 		}
 
 		isUse := method == methodUse
-		isStar := pathClean == "/*"
+		// the wildcard shortcut is for an unescaped "/*" only; `/\*` is the literal path "/*"
+		isStar := pathPretty == "/*"
 		isRoot := pathClean == "/"
 
 		route := Route{
